@@ -458,6 +458,9 @@ class Prop(Check):
         "Obj.C06_bisect",
         "Obj.C06_linecol",
         "Obj.C06_linecol_inj",
+        "Obj.C06_line_monotone",
+        "Obj.C06_col_monotone",
+        "Obj.C06_linecol_strict_mono",
         "Obj.C06_tree_span",
         "Obj.C06_tree_nesting",
         "Obj.C06_tree_siblings",
